@@ -14,7 +14,7 @@ VERIF = os.path.dirname(os.path.dirname(os.path.abspath(__file__)))
 REPO = os.environ.get("VERIF_REPO", "/repo")
 HARNESS = os.path.join(VERIF, "harness")
 SPEC = os.path.join(VERIF, "spec")
-EVID = os.path.join(VERIF, "evidence")
+EVID = os.environ.get("VERIF_EVIDENCE_DIR") or os.path.join(VERIF, "evidence")
 NCPU = os.cpu_count() or 4
 
 
@@ -201,7 +201,7 @@ def tlc(workdir, module, cfg_text, workers=None, simulate=None, depth=None, seed
         cmd = ["java", "-XX:+UseParallelGC", "-XX:ParallelGCThreads=%d" % max(2, min(w, 8)), "-Xss512m"]
         if heap:
             cmd.append("-Xmx" + heap)
-    cmd += ["-cp", TLC_JAR, "tlc2.TLC", "-metadir", md, "-config", cfgp, "-workers", str(workers or 1)]
+    cmd += ["-Djava.io.tmpdir=" + md, "-cp", TLC_JAR, "tlc2.TLC", "-metadir", md, "-config", cfgp, "-workers", str(workers or 1)]
     if simulate is not None:
         cmd += ["-simulate", "num=%d" % simulate]
         cmd += ["-depth", str(depth or 200)]
@@ -247,6 +247,9 @@ def validate_trace(workdir, trace_module, trace_file_name, lines, constants="", 
     """Write `lines` (list of dicts or pre-serialised str) as ndjson named trace_file_name in a fresh
     subdir of workdir, run the trace spec (SPECIFICATION TSpec, INVARIANT Report), and return
     (bad_entries, nlines, TlcResult). bad entries are what the spec appended to `bad` (JSON)."""
+    if os.environ.get("VERIF_SELFTEST"):
+        import selftest
+        lines, _ = selftest.apply(os.environ["VERIF_SELFTEST"], trace_module, lines)
     sub = tempfile.mkdtemp(prefix="tv-", dir=workdir)
     if family:
         copy_specs(family, sub, also)
@@ -357,6 +360,10 @@ def validate_sharded(workdir, module, fname, recs, shards, family, constants="",
             for k, ln in enumerate(recs[ri]):
                 lines.append(ln)
                 owner.append((ri, k))
+        if os.environ.get("VERIF_SELFTEST"):
+            import selftest
+            lines, dropped = selftest.apply(os.environ["VERIF_SELFTEST"], module, lines)
+            owner = [o for i, o in enumerate(owner) if i not in dropped]
         bad, n, r = validate_trace(workdir, module, fname, lines, constants=constants, family=family, also=also, timeout=timeout)
         out = []
         for b in bad:
